@@ -114,6 +114,11 @@ def main():
     if os.path.exists(notes):
         shutil.copy(notes, d + "/notes.md")
     ids = [] if checks == "all" else checks.split(",")
+    if checks == "none":
+        meta["what_ran"] = ["cargo test --offline --no-fail-fast (unchanged tree + demo, then patched tree + demo)"]
+        json.dump(meta, open(d + "/meta.json", "w"), indent=1)
+        print("SEED %s property=%s confirmed (checks not run yet)" % (sid, prop))
+        return 0
     p = subprocess.run([VERIF + "/tools/mutrun.py", sid, d + "/patch.diff", "--tier", tier] + ids,
                        stdout=subprocess.PIPE, stderr=subprocess.STDOUT, text=True)
     print(p.stdout)
